@@ -147,3 +147,42 @@ package value
 //@   assigns nothing
 //@   trusted
 //@ axiom card_bin: forall b bin :: mcard(box(b)) == 1 + ite(b.IsMin, 1, 0) + ite(b.IsMax, 1, 0)
+
+// a stack argument is well formed: size slots starting at offs lie inside the storage
+//@ predicate validStack(st funcGen.Stack[Value]) = st.storage != nil && 0 <= st.offs && 0 <= st.size && st.offs+st.size <= len(st.storage.data)
+//@ predicate stackArg(st funcGen.Stack[Value], n int) Value = st.storage.data[st.offs+n]
+
+// Map methods in terms of the view
+//@ func (v Map) PutM
+//@   property C13
+//@   safety C13
+//@   requires validStack(stack) && stack.size >= 3
+//@   ensures[keys] result1 == nil ==> (forall k string :: mhas(result0.m, k) == (mhas(v.m, k) || k == string(unbox(stackArg(stack, 1), String))))
+//@   ensures[values] result1 == nil ==> (forall k string :: mhas(v.m, k) ==> mget(result0.m, k) == mget(v.m, k)) && mget(result0.m, string(unbox(stackArg(stack, 1), String))) == stackArg(stack, 2)
+//@   ensures[card] result1 == nil ==> mcard(result0.m) == mcard(v.m)+1
+//@   ensures[unique] typeis(stackArg(stack, 1), String) && mhas(v.m, string(unbox(stackArg(stack, 1), String))) ==> result1 != nil
+//@   assigns nothing
+
+//@ func (v Map) ContainsKey
+//@   property C13
+//@   safety C13
+//@   ensures result == box(Bool(mhas(v.m, string(key))))
+//@   assigns nothing
+
+//@ func (v Map) GetM
+//@   property C13
+//@   safety C13
+//@   requires validStack(stack) && stack.size >= 2
+//@   ensures[found] result1 == nil ==> typeis(stackArg(stack, 1), String) && mhas(v.m, string(unbox(stackArg(stack, 1), String))) && result0 == mget(v.m, string(unbox(stackArg(stack, 1), String)))
+//@   ensures[missing] typeis(stackArg(stack, 1), String) && !mhas(v.m, string(unbox(stackArg(stack, 1), String))) ==> result1 != nil
+//@   assigns nothing
+
+//@ func (v Map) IsAvail
+//@   property C13
+//@   safety C13
+//@   requires validStack(stack) && stack.size >= 1
+//@   ensures[all] result1 == nil && result0 == box(Bool(true)) ==> (forall i in 1..stack.size :: typeis(stackArg(stack, i), String) && mhas(v.m, string(unbox(stackArg(stack, i), String))))
+//@   ensures[some-missing] result1 == nil && result0 == box(Bool(false)) ==> (exists i in 1..stack.size :: typeis(stackArg(stack, i), String) && !mhas(v.m, string(unbox(stackArg(stack, i), String))))
+//@   ensures[type] result1 == nil ==> result0 == box(Bool(true)) || result0 == box(Bool(false))
+//@   assigns nothing
+//@   loop 1 invariant 1 <= i && (forall j in 1..i :: j < stack.size ==> typeis(stackArg(stack, j), String) && mhas(v.m, string(unbox(stackArg(stack, j), String))))
